@@ -16,6 +16,9 @@ Static rules (no FEAT3 code is executed) on the resolved program as seen by the 
   E7  'no silent drop' in the merge loops (path enumeration with helper inlining, lib/norm_c03): the B-cursor only
       advances after the accumulate statement or under allow_incomplete, every other way out - inside or behind the
       loop, in the product or in an extracted helper - aborts; both cursors are bounds-checked before dereference;
+  E2  dense products (ProductMatMat::dense_generic / dsd_generic behind DenseMatrix::multiply): loop ranges, row-major
+      addresses, per-element sum, and the net effect r <- beta*z + alpha*sum on every path through tests of the scalars,
+      also when the summand is the output array (statements compose in program order);
   (note) sibling agreement of the five merge loops.
 """
 import re
@@ -27,7 +30,7 @@ from featlib import Check, walk, render, is_call, rel
 from lafem_roles import (Unknown, strip_targs, defile, strip, Locals, perspective, objkey, accessor, const_value,
                          assertions, counting_loop, is_zero, flatten_if_chain, stmts, live_must_pass)
 from norm_c03 import Frame, MergeInterp
-from norm_c04 import fuse_while, loop_form, alias_value, EMPTY
+from norm_c04 import fuse_while, loop_form, alias_value, EMPTY, scalar_guard, array_units, partitions, pattern_label
 
 LAFEM = featlib.repo_path("kernel/lafem/")
 MATRIX_CLASSES = ("FEAT::LAFEM::SparseMatrixCSR", "FEAT::LAFEM::SparseMatrixBCSR")
@@ -208,6 +211,29 @@ def check_matrix_call(ck, fn, call, dbg_asserts):
               ("`%s` is subscripted by the %s index in %s::%s (slot %s) but the function guards its length by %s; expected %s.size() == this->%s()%s" % (
                   vec, "row" if kind == "row" else "column (col_ind)", struct, kname, slot, ["size()==%s() [%s]" % f for f in found], vec, want_dim, "")),
               fn.file, call.get("l"))
+
+
+BLOCKED_CONTAINERS = ("FEAT::LAFEM::SparseMatrixBCSR", "FEAT::LAFEM::DenseVectorBlocked", "FEAT::LAFEM::SparseVectorBlocked")
+
+
+def check_pool_site(ck, fn, call):
+    """E1.slots for the library array routines (MemoryPool::set_memory / copy / convert: `count` elements of the pointee type)
+    inside the matrix-algebra members: value arrays and count in the same unit (scalars of the pod perspective vs blocks)"""
+    loc = Locals(fn)
+    sig = "(%s)" % ",".join(p["n"] for p in fn.params)
+    key = "%s::%s%s/%s" % (short(fn.cls), fn.name, sig, call["callee"].replace("FEAT::", ""))
+    u = array_units(fn, loc, call, BLOCKED_CONTAINERS)
+    if u is None:
+        return
+    ptr_units, cu, desc = u
+    if cu is None:
+        ck.incomplete("E1.slots", "%s: %s - the count is not an extent accessor or a constant (computed count: not modelled)" % (key, desc))
+        return
+    bad = cu != "const" and any(pu != cu for pu in ptr_units)
+    ck.ob("E1.slots", key, not bad,
+          ("%s: the array is addressed in %s but the count is in %s: only 1/(BlockHeight*BlockWidth) of the scalars are touched (or the routine overruns the array)" % (
+              desc, "scalars (Perspective::pod)" if "scalar" in ptr_units else "blocks", "blocks (native perspective)" if cu == "block" else "scalars")) if bad else desc,
+          fn.file, call.get("l"), trivial=(cu == "const"))
 
 
 def check_dispatch(ck, fn):
@@ -637,6 +663,324 @@ def analyse_matrix_kernel(ck, fn, struct):
         ck.ob("E2.matrix-kernel", key, False, "[%s] %s" % (inst, e), file, fn.line)
     except Unknown as e:
         ck.incomplete("E2.matrix-kernel", "%s [%s]: %s" % (key, inst, e))
+
+
+# -------------------------------------------------------------------------------------------------
+# E2.dense-product: r <- alpha * X*Y + beta * z  (ProductMatMat::dense_generic / dsd_generic)
+# -------------------------------------------------------------------------------------------------
+def analyse_product_kernel(ck, fn):
+    """ProductMatMat::dense_generic / dsd_generic: loops over [0,rows) x [0,columns) with a per-element sum over the inner
+    dimension (dense: [0,inner); dsd: the entries of row i of the sparse factor), row-major addresses of every array, and
+    - for every admissible aliasing of the output with the summand (r == z; the sparse-dense form reads r itself) and every path
+    through tests of the scalars - the net effect r_ij <- beta * z_ij(old) + alpha * sum.  Statements compose in program
+    order, so a read of the summand after the output element was written sees the new value when both are the same array."""
+    name = fn.name
+    key0 = "ProductMatMat::%s" % name
+    inst = fn.full.split("::", 3)[-1]
+    file = defile(fn)
+    loc = Locals(fn)
+    params = {p["d"]: p["n"] for p in fn.params}
+    ptr = {p["d"] for p in fn.params if "*" in fn.type(p["t"])}
+    scalars = {p["d"]: p["n"] for p in fn.params if p["n"] in ("alpha", "beta")}
+    dsd = "val" in params.values()
+    Isym, Jsym, Ksym, Tsym, COLT = sympy.symbols("I J K T COLT")
+    ROWS, COLS, INNER = sympy.symbols("rows columns inner")
+    role = {}           # loop variable decl id -> symbol
+    SUM = sympy.Symbol("SUM")
+    acc = {}            # decl id of the per-element sum -> Var
+
+    def isym(n):
+        n = loc.resolve(n)
+        k = n.get("k")
+        if k == "Int":
+            return sympy.Integer(int(n["v"]))
+        if k == "Ref":
+            d = n.get("d")
+            if d in role:
+                return role[d]
+            if d in params and params[d] in ("rows", "columns", "inner"):
+                return {"rows": ROWS, "columns": COLS, "inner": INNER}[params[d]]
+            raise Unknown("index term `%s` (line %s)" % (render(n), n.get("l")))
+        if k == "Bin" and n.get("op") in ("+", "*", "-"):
+            a, b = isym(n["lhs"]), isym(n["rhs"])
+            return a + b if n["op"] == "+" else (a - b if n["op"] == "-" else a * b)
+        if k == "Index":
+            b = loc.resolve(n["b"])
+            if b.get("k") == "Ref" and params.get(b.get("d")) == "col_ind":
+                if sympy.expand(isym(n["idx"]) - Tsym) == 0:
+                    return COLT
+                raise Wrong("col_ind subscripted by `%s` (line %s), expected the entry index of the current row" % (render(n["idx"]), n.get("l")))
+            if b.get("k") == "Ref" and params.get(b.get("d")) == "row_ptr":
+                a = sympy.expand(isym(n["idx"]) - Isym)
+                if a == 0:
+                    return sympy.Symbol("RP0")
+                if a == 1:
+                    return sympy.Symbol("RP1")
+                raise Wrong("row_ptr subscripted by `%s` (line %s)" % (render(n["idx"]), n.get("l")))
+        raise Unknown("index term `%s` (%s, line %s)" % (render(n)[:50], k, n.get("l")))
+
+    WANT = {"r": Isym * COLS + Jsym, "z": Isym * COLS + Jsym, "x": Isym * INNER + Ksym, "val": Tsym,
+            "y": (COLT if dsd else Ksym) * COLS + Jsym}
+
+    lets = {}           # decl id of an element-level snapshot local -> symbol
+
+    def vsym_nolet(n):
+        return vsym(n)
+
+    def vsym(n):
+        n = strip(n)
+        k = n.get("k")
+        if k == "Int":
+            return sympy.Integer(int(n["v"]))
+        if k == "Float":
+            return sympy.Rational(str(n.get("text") or n["v"]).rstrip("fFlL"))
+        if k == "Ref":
+            d = n.get("d")
+            if d in acc:
+                return SUM
+            if d in lets:
+                return lets[d]
+            if d in scalars:
+                return sympy.Symbol(scalars[d])
+            r = loc.resolve(n)
+            if r is not n and r.get("k") != "Ref":
+                return vsym(r)
+            raise Unknown("value `%s` (line %s)" % (render(n), n.get("l")))
+        if k == "Index":
+            b = loc.resolve(n["b"])
+            if not (b.get("k") == "Ref" and b.get("d") in ptr):
+                raise Unknown("array `%s` (line %s)" % (render(n["b"]), n.get("l")))
+            nm = params[b["d"]]
+            if nm not in WANT:
+                raise Unknown("array parameter `%s` has no role in the product" % nm)
+            addr = isym(n["idx"])
+            if sympy.expand(addr - WANT[nm]) != 0:
+                raise Wrong("array `%s` is subscripted by %s (line %s); row-major storage of the %s needs %s" % (
+                    nm, sympy.expand(addr), n.get("l"), {"r": "rows x columns result", "z": "rows x columns summand", "x": "rows x inner left factor",
+                                                          "y": "inner x columns right factor", "val": "sparse left factor"}[nm], WANT[nm]))
+            return sympy.Symbol(nm)
+        if k == "Bin" and n.get("op") in ("+", "-", "*", "/"):
+            a, b = vsym(n["lhs"]), vsym(n["rhs"])
+            return {"+": a + b, "-": a - b, "*": a * b, "/": a / b}[n["op"]]
+        if k == "Un" and n.get("op") == "-":
+            return -vsym(n["e"])
+        raise Unknown("expression `%s` (%s, line %s)" % (render(n)[:60], k, n.get("l")))
+
+    def classify(node, env):
+        lf = loop_form(node)
+        if lf is None or lf["others"] or lf["down"] or lf["hi_off"]:
+            raise Unknown("loop at line %s is not an induction by steps of one over [lo, hi)" % node.get("l"))
+        lo, hi = loc.resolve(lf["lo"]), loc.resolve(lf["hi"])
+        if is_zero(lo) and hi.get("k") == "Ref" and hi.get("dk") == "param" and hi.get("n") in ("rows", "columns", "inner"):
+            return lf["var"], {"rows": Isym, "columns": Jsym, "inner": Ksym}[hi["n"]]
+        if "I" in env:
+            a, b = isym(lo), isym(hi)
+            if a == sympy.Symbol("RP0") and b == sympy.Symbol("RP1"):
+                return lf["var"], Tsym
+            raise Wrong("inner loop at line %s ranges over [%s, %s), expected the entries [row_ptr[i], row_ptr[i+1]) of row i" % (node.get("l"), render(lo), render(hi)))
+        raise Unknown("loop range at line %s" % node.get("l"))
+
+    events = []         # (env, position, statement)
+
+    def leaves(node, env):
+        for s in fuse_while(stmts(node)):
+            if s.get("k") == "For":
+                d, sym = classify(s, env)
+                if str(sym) in env:
+                    raise Unknown("nested %s loops" % sym)
+                role[d] = sym
+                e2 = dict(env)
+                e2[str(sym)] = s
+                leaves(s["body"], e2)
+            elif s.get("k") in ("While", "Do", "ForRange", "Switch"):
+                raise Unknown("%s at line %s" % (s["k"], s.get("l")))
+            else:
+                events.append((dict(env), len(events), s))
+
+    try:
+        top = [s for s in fuse_while(stmts(fn.body)) if s.get("k") != "Decl"]
+        if len(top) != 1 or top[0].get("k") != "For":
+            raise Unknown("body is not a single loop nest")
+        leaves(top[0], {})
+        inner_sym = "T" if dsd else "K"
+        problems = []
+        elem = []           # element-level statements behind the inner loop
+        seen_inner = False
+        for env, pos, s in events:
+            full = "I" in env and "J" in env
+            if s.get("k") == "Decl":
+                if full and inner_sym not in env and seen_inner and any(v["d"] not in loc.written and v.get("init") is not None and
+                                                                      any(y.get("k") == "Index" for y in walk(v["init"])) for v in s["vars"]):
+                    elem.append(s)          # `const DT_ zij = z[idx];` behind the inner loop: a snapshot of the array element
+                    continue
+                for v in s["vars"]:
+                    if v["d"] in loc.written or v.get("init") is None:
+                        if not full or inner_sym in env:
+                            raise Unknown("local `%s` (line %s) is written but not declared per result element" % (v["n"], v.get("l")))
+                        if v.get("init") is None or not (is_zero(loc.resolve(v["init"])) or (loc.resolve(v["init"]).get("k") == "Float" and float(loc.resolve(v["init"])["v"]) == 0)):
+                            problems.append("line %s: the per-element sum `%s` does not start from 0" % (v.get("l"), v["n"]))
+                        acc[v["d"]] = v
+                continue
+            if inner_sym in env:
+                if not full:
+                    raise Unknown("statement `%s` inside the inner loop but not inside both result loops" % render(s)[:60])
+                seen_inner = True
+                if s.get("k") != "Assign" or strip(s["lhs"]).get("d") not in acc:
+                    raise Unknown("statement `%s` in the inner loop is not an update of the per-element sum" % render(s)[:60])
+                rhs = vsym(s["rhs"])
+                new = rhs if s.get("op") == "=" else {"+=": SUM + rhs, "-=": SUM - rhs}.get(s["op"])
+                if new is None:
+                    raise Unknown("operator %s on the sum" % s.get("op"))
+                term = sympy.expand(new - SUM)
+                want = sympy.Symbol("val" if dsd else "x") * sympy.Symbol("y")
+                if term.has(SUM):
+                    problems.append("line %s: the sum is not only accumulated (new value %s)" % (s.get("l"), new))
+                elif sympy.expand(term - want) != 0:
+                    problems.append("line %s: accumulates %s per inner index, the product needs %s" % (s.get("l"), term, want))
+                continue
+            if not full:
+                raise Unknown("statement `%s` outside the result loops" % render(s)[:60])
+            if not seen_inner:
+                raise Unknown("statement `%s` in front of the inner loop" % render(s)[:60])
+            elem.append(s)
+        if len(acc) != 1:
+            raise Unknown("%d per-element accumulators" % len(acc))
+
+        # paths through the element statements: [(guards, [(target, new)])]
+        def paths(sts, guards, ups):
+            if not sts:
+                return [(guards, ups)]
+            s, rest = sts[0], sts[1:]
+            if s.get("k") == "If":
+                g = scalar_guard(s["c"], loc, scalars)
+                if g is None:
+                    raise Unknown("condition `%s` (line %s) is not a test of the scalars alpha / beta" % (render(s["c"])[:60], s.get("l")))
+                out = []
+                out += paths(stmts(s["then"]) + rest, guards + [(g, True, s["c"])], list(ups))
+                out += paths((stmts(s["else"]) if s.get("else") is not None else []) + rest, guards + [(g, False, s["c"])], list(ups))
+                return out
+            if s.get("k") == "Decl":
+                more = []
+                for v in s["vars"]:
+                    if v["d"] not in loc.written and v.get("init") is not None and any(y.get("k") == "Index" for y in walk(v["init"])):
+                        lets[v["d"]] = sympy.Symbol("LET%d" % v["d"])
+                        more.append((lets[v["d"]], vsym_nolet(v["init"]), v.get("l")))
+                return paths(rest, guards, ups + more)
+            if s.get("k") != "Assign":
+                raise Unknown("statement `%s` (line %s)" % (render(s)[:60], s.get("l")))
+            t = vsym(s["lhs"])
+            rhs = vsym(s["rhs"])
+            new = rhs if s.get("op") == "=" else {"+=": t + rhs, "-=": t - rhs, "*=": t * rhs}.get(s["op"])
+            if new is None:
+                raise Unknown("operator %s" % s.get("op"))
+            return paths(rest, guards, ups + [(t, new, s.get("l"))])
+        plist = paths(elem, [], [])
+        r_, z_ = sympy.Symbol("r"), sympy.Symbol("z")
+        alpha, beta = sympy.Symbol("alpha"), sympy.Symbol("beta")
+        summand = r_ if dsd else z_
+        definition = beta * summand + alpha * SUM
+        pats = [("general", {})] + ([] if dsd else [("r==z", {z_: r_})])
+        for label, sub in pats:
+            key = "%s/%s" % (key0, label)
+            bad = list(problems)
+            for guards, ups in plist:
+                point = {sympy.Symbol(g[1]): g[2] for g, pol, _ in guards if g[0] in ("eq", "ne") and (g[0] == "eq") == pol}
+                gtext = " && ".join(("" if pol else "!") + render(c) for _, pol, c in guards)
+                state = {}
+                for t, new, ln in ups:
+                    t2 = t.subs(sub, simultaneous=True)
+                    e2 = new.subs(sub, simultaneous=True)
+                    if state:
+                        e2 = e2.subs(state, simultaneous=True)
+                    state[t2] = e2
+                where = (" on the path `%s`" % gtext) if gtext else ""
+                letsyms = set(lets.values())
+                if set(state) - {r_} - letsyms:
+                    bad.append("the element statements write %s%s" % (sorted(map(str, set(state) - {r_} - letsyms)), where))
+                    continue
+                got = state.get(r_, r_).subs(point, simultaneous=True)
+                want = definition.subs(sub, simultaneous=True).subs(point, simultaneous=True)
+                if sympy.expand(got - want) != 0:
+                    bad.append("%s%s the element receives %s; the formula r <- beta*%s + alpha*sum gives %s%s" % (
+                        ("with the summand aliasing the output (r == z: the in-place update C <- alpha*A*B + beta*C) " if sub else ""), where.strip() or "",
+                        sympy.expand(got), "z" if not dsd else "r", sympy.expand(want),
+                        " - a statement reads the summand after the output element was overwritten" if sub and len(ups) > 1 else ""))
+            ck.ob("E2.dense-product", key, not bad,
+                  "[%s] " % inst + ("; ".join(bad) if bad else "loops over rows x columns, per-element sum over %s of %s*y from 0, row-major addresses, net effect r <- beta*%s + alpha*sum on %d path(s)%s" % (
+                      "the entries of row i" if dsd else "[0,inner)", "val" if dsd else "x", "r" if dsd else "z", len(plist), " also when z is r" if sub else "")),
+                  file, (elem[0].get("l") if elem else fn.line), sample={"instantiation": inst, "paths": len(plist)})
+    except Wrong as e:
+        ck.ob("E2.dense-product", "%s/general" % key0, False, "[%s] %s" % (inst, e), file, fn.line)
+    except Unknown as e:
+        ck.incomplete("E2.dense-product", "%s [%s]: %s" % (key0, inst, e))
+
+
+def check_product_site(ck, fn, call):
+    """DenseMatrix::multiply -> Arch::ProductMatMat::dense / dsd: the output slot carries the receiver, the factor slots the
+    factor operands in order, the summand slot the summand operand (or the receiver when the operation has none), the
+    extents are rows/columns of the receiver and the inner dimension columns(x) (= rows(y) by the function's XASSERT)"""
+    loc = Locals(fn)
+    sig = "(%s)" % ",".join(p["n"] for p in fn.params)
+    key = "%s::%s%s/ProductMatMat::%s" % (short(fn.cls), fn.name, sig, call["callee"].rsplit("::", 1)[-1])
+    pn, args = call.get("pn", []), call.get("a", [])
+    if len(pn) != len(args):
+        ck.incomplete("E1.slots", "%s: %d arguments for %d parameters" % (key, len(args), len(pn)))
+        return
+    mats = [p["n"] for p in fn.params if "Matrix" in fn.type(p["t"])]
+    scal = [p["n"] for p in fn.params if "Matrix" not in fn.type(p["t"])]
+    problems = []
+    eq_inner = set()
+    for cond, _ in assertions(fn):
+        c = strip(cond)
+        if c.get("k") == "Bin" and c.get("op") == "==":
+            l, r = accessor(loc, c["lhs"]), accessor(loc, c["rhs"])
+            if l and r:
+                eq_inner.add(frozenset([(l["obj"], l["name"]), (r["obj"], r["name"])]))
+    for slot, a in zip(pn, args):
+        acc = accessor(loc, a)
+        want = None
+        if slot == "r":
+            want = [("this", "elements")]
+        elif slot == "x":
+            want = [(mats[0], "elements")] if mats else None
+        elif slot in ("val", "col_ind", "row_ptr", "used_elements"):
+            want = [(mats[0], slot)] if mats else None
+        elif slot == "y":
+            want = [(mats[1], "elements")] if len(mats) > 1 else None
+        elif slot == "z":
+            want = [(mats[2], "elements")] if len(mats) > 2 else [("this", "elements")]
+        elif slot == "rows":
+            want = [("this", "rows")] + ([(mats[0], "rows")] if mats and frozenset([("this", "rows"), (mats[0], "rows")]) in eq_inner else [])
+        elif slot == "columns":
+            want = [("this", "columns")] + ([(mats[1], "columns")] if len(mats) > 1 and frozenset([("this", "columns"), (mats[1], "columns")]) in eq_inner else [])
+        elif slot == "inner":
+            want = [(mats[0], "columns")] + ([(mats[1], "rows")] if len(mats) > 1 and frozenset([(mats[0], "columns"), (mats[1], "rows")]) in eq_inner else []) if mats else None
+        elif slot in ("alpha", "beta"):
+            v = loc.resolve(a)
+            if v.get("k") == "Ref" and v.get("dk") == "param":
+                if v.get("n") != slot:
+                    problems.append("scalar slot %s receives the parameter `%s`" % (slot, v.get("n")))
+            elif slot in scal:
+                problems.append("scalar slot %s receives `%s`, not the parameter %s of the operation" % (slot, render(a)[:40], slot))
+            else:
+                cv = const_value(loc, a)
+                neutral = 1 if slot == "alpha" else 0
+                if cv is None:
+                    ck.incomplete("E1.slots", "%s: scalar slot %s receives `%s`" % (key, slot, render(a)[:60]))
+                    return
+                if cv != neutral:
+                    problems.append("the operation has no parameter %s (this <- x*y) but the kernel receives %s = %s instead of %d" % (slot, slot, cv, neutral))
+            continue
+        if want is None:
+            ck.incomplete("E1.slots", "%s: slot %s has no role / operand" % (key, slot))
+            return
+        if acc is None:
+            ck.incomplete("E1.slots", "%s: slot %s receives `%s`, which is not an accessor call the rule models" % (key, slot, render(a)[:80]))
+            return
+        if (acc["obj"], acc["name"]) not in want:
+            problems.append("slot %s receives %s.%s(), expected %s" % (slot, acc["obj"], acc["name"], " or ".join("%s.%s()" % w for w in want)))
+    ck.ob("E1.slots", key, not problems, "; ".join(problems) if problems else "slots %s <- %s" % (pn, [render(a) for a in args]),
+          fn.file, call.get("l"), sample={"callee_params": pn, "args": [render(a) for a in args]})
 
 
 # -------------------------------------------------------------------------------------------------
@@ -1150,10 +1494,11 @@ def check_result_dims(ck, fn):
 # -------------------------------------------------------------------------------------------------
 def run(tier):
     ck = Check("C03", tier)
-    ck.rule("E1.slots", "Arch call sites of SparseMatrixCSR/BCSR (axpy, scale, norm_frobenius, row_norm2/2sqr, max/min(_abs)_element, scale_rows/cols, lump_rows, extract_diag_indices): every slot named by the callee's parameters receives the like-named accessor of the right object (structure arrays and extents of the receiver, value array of the operand matrix in slot a/x, the vector operand, the scalar, BlockHeight/BlockWidth), pod arrays with pod entry counts. Broken for: rectangular matrices / rectangular blocks, alpha != 1, x != this.", 42)
+    ck.rule("E1.slots", "Arch call sites of SparseMatrixCSR/BCSR (axpy, scale, norm_frobenius, row_norm2/2sqr, max/min(_abs)_element, scale_rows/cols, lump_rows, extract_diag_indices) and of DenseMatrix::multiply (ProductMatMat::dense/dsd): every slot named by the callee's parameters receives the like-named accessor of the right object (structure arrays and extents of the receiver, value array of the operand matrix in slot a/x, the vector operand, the scalar, BlockHeight/BlockWidth; product: factors in order, summand z = the summand operand or the receiver, inner = columns(x)), pod arrays with pod entry counts; library array routines in the same members (MemoryPool::set_memory/copy/convert: `count` elements of the pointee type) receive value arrays and count in the same unit (scalars of Perspective::pod vs blocks). Broken for: rectangular matrices / rectangular blocks, alpha != 1, x != this, special-case paths (alpha == 0) on blocked matrices.", 46)
     ck.rule("E1.vector-guard", "the length guard of a vector operand names the dimension by which the kernel subscripts it (rows for row-indexed, columns for col_ind-indexed slots); scale_rows/scale_cols/lump_rows/extract_diag_indices state it as an always-on XASSERT. Broken for: rectangular matrices (valid operand rejected, or too short operand read out of bounds).", 24)
     ck.rule("E1.dispatch", "Arch wrappers of the matrix kernels forward each parameter to the like-named slot of the generic implementation of the same operation, on every path.", 46)
     ck.rule("E2.matrix-kernel", "generic kernels ScaleRows/ScaleCols/Lumping/RowNorm/Diagonal (csr and bcsr): outer loop over [0,rows), entry loop over [row_ptr[row],row_ptr[row+1]), every array subscripted by the index kind of its role (entry, row, col_ind[entry]; blocked affine forms), per-row results defined outside the entry loop (empty rows), reductions only accumulate inside the entry loop, per-entry term and result equal the documented formula. Broken for: rectangular matrices, empty rows, rows with more than one entry/block.", 46)
+    ck.rule("E2.dense-product", "ProductMatMat::dense_generic / dsd_generic (DenseMatrix::multiply): loops over [0,rows) x [0,columns), a per-element sum that starts from 0 and only accumulates x_ik*y_kj over the inner dimension (dsd: over the entries of row i), row-major addresses of every array, and on every path through tests of the scalars and for every admissible aliasing of the output with the summand (z == r: the in-place update C <- alpha*A*B + beta*C, required by the MKL back end and used by multiply(x,y) itself) the net effect r_ij <- beta*z_ij(old) + alpha*sum; statements compose in program order. Broken for: non-square factors (addresses), in-place calls with beta != 0 (summand read after the output element was written).", 8)
     ck.rule("E2.merge-kinds", "add_double_mat_product / add_mat_mat_product (CSR, BCSR): every subscript of row_ptr/col_ind/val/elements of X, D, A, B has the index kind the array needs (Row/NZ/Col/Dim of that object); kinds of different objects are equal only through the function's own XASSERTs; compared column indices live in the same space; cursors are bounded by the end of their own segment. Broken for: products of non-square factors.", 86)
     ck.rule("E7.no-silent-drop", "merge loops (in the product itself or in a helper it calls, whatever the spelling: while/for, refusal inside or behind the loop, break / status return / status flag): on every path through one iteration an entry of the right factor B is passed over only after the accumulate statement X_ij += w*B_lj served it (itself executed only where the two column indices are equal, reading B at the cursor) or where allow_incomplete is known to be true, where advancing the B cursor by exactly one is the only permitted effect (at most one advance per iteration); every path that leaves the merge with entries of B remaining either reaches XABORTM or has allow_incomplete true AND the X cursor at the end of its row (no slot can follow); both cursors are checked against the end of their row before they are dereferenced, and the X cursor passes a slot only after serving it or when its column is smaller than the current B column. Broken for: output patterns poorer than the product pattern (silently wrong values instead of the documented abort), rows of X shorter than rows of B.", 7)
     ck.rule("E7.full-enumeration", "merge products: the for loops over the rows of X/D, the entries D_ik and the entries A_kl that enclose the sorted-merge loop are left only through their own loop condition (or XABORTM): no break / return inside them, no continue that skips the merge. Each iteration adds an independent term of sum_k sum_l alpha*D_ik*A_kl*B_l.; no condition on the cursors of the current B row says anything about later rows. Broken for: allow_incomplete with an output row that ends before a row of B, followed by further entries A_kl' whose rows hit existing slots.", 19)
@@ -1206,6 +1551,14 @@ def run(tier):
             seen.add(ident)
             base = strip_targs(fn.cls)
             m = re.match(r"^FEAT::LAFEM::Arch::(\w+)$", base)
+            if m and m.group(1) == "ProductMatMat":
+                if fn.name in ("dense_generic", "dsd_generic"):
+                    analyse_product_kernel(ck, fn)
+                continue
+            if base == "FEAT::LAFEM::DenseMatrix" and fn.name == "multiply":
+                for c in fn.calls(callee_re=r"^FEAT::LAFEM::Arch::ProductMatMat::(dense|dsd)$"):
+                    check_product_site(ck, fn, c)
+                continue
             if m and m.group(1) in MATRIX_KERNELS:
                 if "generic" in fn.name:
                     analyse_matrix_kernel(ck, fn, m.group(1))
@@ -1217,6 +1570,8 @@ def run(tier):
                     if c.get("k") == "Call":
                         check_matrix_call(ck, fn, c, dbg_asserts)
                 if fn.name in ALGEBRA_MEMBERS:
+                    for c in fn.calls(callee_re=r"^FEAT::MemoryPool::(copy|set_memory|convert)$"):
+                        check_pool_site(ck, fn, c)
                     check_row_loops(ck, fn)
                     check_result_dims(ck, fn)
                 if fn.name in MERGE_FUNCS:
@@ -1244,9 +1599,9 @@ def run(tier):
         ck.note("sibling agreement: all %d merge loops (%s) have identical normalised cursor logic" % (len(set(list(sib.values())[0])), ", ".join(sorted(set(list(sib.values())[0])))))
     ck.assume("E7 is decided by path enumeration over the statement trees of the instantiated members with repository helpers inlined (lib/norm_c03); each loop is entered in an arbitrary state of the variables it writes (one generic iteration); the accumulate statement is the unique statement that writes this->val()[cursor]; the right factor is the parameter named b")
     ck.assume("sortedness of column indices inside a row (precondition of a sorted merge) is an input contract of CSR/BCSR and not checked here")
-    ck.assume("numerical equality with the dense formulas, min/max tie-breaking, ProductMatMat (DenseMatrix only; no call site in the CSR/BCSR anchors) and the vector kernels shared with C04 (Axpy/Scale/Norm2/Min/Max index: decided in C04) are not decided here")
+    ck.assume("numerical equality with the dense formulas (rounding, 0*NaN), min/max tie-breaking, the MKL/CUDA back ends of ProductMatMat and the vector kernels shared with C04 (Axpy/Scale/Norm2/Min/Max index: decided in C04) are not decided here; in the dense product the only aliasing of the output considered admissible is with the summand (r == z), as the MKL back end requires and multiply(x,y) does")
     return ck.finish(
-        "Static rules over the clang-resolved program (driver tu/c03_matrices.cpp: SparseMatrixCSR<double>, SparseMatrixBCSR<double,3,3> and <double,2,3>%s): role agreement at every Arch call site of the matrix "
+        "Static rules over the clang-resolved program (driver tu/c03_matrices.cpp: SparseMatrixCSR<double>, SparseMatrixBCSR<double,3,3> and <double,2,3>, DenseMatrix<double>%s): role agreement at every Arch call site of the matrix "
         "algebra members (slots named by the callee's parameters, perspectives, block dimensions, vector length guards incl. debug ASSERTs), index-kind and formula conformance of the generic "
         "scale_row_col/lumping/row_norm/diagonal kernels (loop ranges, subscript kinds, empty rows, accumulate-only reductions), index kinds of the sorted-merge products under the functions' own "
         "XASSERT equalities, and the path rule (all paths of one generic merge iteration and of the code behind the loop, helpers inlined) that no entry of the right factor is skipped without accumulation unless allow_incomplete is true while every other way out aborts. Symbolic in "
